@@ -38,6 +38,11 @@ def skeletons():
         'optional-of-closure': [('s', seq(opt(star(seq(a, b))), a, c))],
         'optional-of-optional': [('s', seq(opt(opt(seq(a, b))), a, c))],
         'optional-of-join': [('s', alt(seq(opt(join(c, seq(a, b), False, True)), a), seq(a, b, c, a, a)))],
+        # ... with the cut inside a plain group (transparent to the cut) of the closure's body
+        'optional-of-closure-group': [('s', seq(opt(star(seq(a, group(seq(b, c))))), a, b))],
+        # a separator that can match the empty string: the join commits after the separator whatever it consumed (s%{e}+ == e {s ~ e})
+        'positive-join-nullable-sep': [('s', alt(seq(join(opt(c), seq(a, b), True, True), c), seq(a, b, a, c)))],
+        'gather-nullable-sep': [('s', alt(seq(join(opt(c), a, False, False), b), seq(a, a, c)))],
     }
 
 
@@ -108,7 +113,7 @@ def run(tier):
     from ..pegcheck import machine_check
     mstep = 3 if tier == 'quick' else 1
     machine_check(ck, items[ck.seed % mstep::mstep], 'C05 cut placements', maxlen=3 if tier == 'quick' else 4, maxtexts=40 if tier == 'quick' else 200)
-    ck.cov['rule'] = (f'{len(items)} grammars = 21 skeletons (optional of closure / optional / join, choice, choice in group, optional, closure, positive closure, nested '
+    ck.cov['rule'] = (f'{len(items)} grammars = 24 skeletons (optional of closure / optional / join, a cut in a group of a collapsed closure, separators that can match empty, choice, choice in group, optional, closure, positive closure, nested '
                       'closure, join, positive join, gather, rule body, rule called from choice/closure, choices in closure/optional) '
                       'with a cut inserted at every position of every sequence (and the cut-free skeleton) x all texts over {a,b,c} '
                       f'up to length {5 if tier == "quick" else 6}; non-trivial = accepted case with distinct (grammar, AST, end)')
